@@ -145,7 +145,7 @@ var sweepItems = func() []sweepItem {
 	var out []sweepItem
 	for _, ct := range ctypes {
 		for _, m := range methodNames(ct) {
-			for _, st := range []string{"empty", "three", "grown", "full", "self-arg", "panicking-key", "panicking-callback", "negative-capacity", "negative-keys-grown-full"} {
+			for _, st := range []string{"empty", "three", "grown", "full", "self-arg", "panicking-key", "panicking-callback", "negative-capacity", "negative-keys-grown-full", "callback-reads-accessors"} {
 				out = append(out, sweepItem{ct.Name, m, st})
 			}
 		}
@@ -166,7 +166,7 @@ func runSweepItem(i uint64) (bool, error) {
 	ct := ctypeByName[it.Type]
 	self := reflect.ValueOf(ct.New())
 	switch it.State {
-	case "three", "self-arg", "panicking-key", "panicking-callback", "negative-capacity":
+	case "three", "self-arg", "panicking-key", "panicking-callback", "negative-capacity", "callback-reads-accessors":
 		populate(self, ct, 3)
 	case "grown":
 		populate(self, ct, 200)
@@ -271,6 +271,36 @@ func runSweepItem(i uint64) (bool, error) {
 			return false, nil
 		}
 	}
+	if it.State == "callback-reads-accessors" {
+		// the queues' Failed / Overflowed callbacks ask the queue how full it is (Size, GetCapacity), as a callback that
+		// logs "queue full" does; the queue is at its bound so that the callbacks fire (seed C10-s19)
+		replaced := false
+		for _, cb := range []string{"Failed", "Overflowed"} {
+			if f := self.Elem().FieldByName(cb); f.IsValid() && f.Kind() == reflect.Func && f.CanSet() {
+				f.Set(reflect.MakeFunc(f.Type(), func([]reflect.Value) []reflect.Value {
+					for _, acc := range []string{"Size", "GetCapacity"} {
+						if am := self.MethodByName(acc); am.IsValid() && am.Type().NumIn() == 0 {
+							am.Call(nil)
+						}
+					}
+					return nil
+				}))
+				replaced = true
+			}
+		}
+		if !replaced {
+			return false, nil
+		}
+		if sc := self.MethodByName("SetCapacity"); sc.IsValid() {
+			in := make([]reflect.Value, sc.Type().NumIn())
+			for i := range in {
+				in[i] = reflect.ValueOf(3)
+			}
+			sc.Call(in)
+		}
+		k = 7
+		args = callArgs(m, k, 5, self, ct)
+	}
 	out := guardedCall(func() []reflect.Value { return m.Call(args) })
 	if out.blocked != "" {
 		return true, fmt.Errorf("%s.%s on a structure no other goroutine touches (state %s) never returns: it blocks on the structure's own lock %s", it.Type, it.Method, it.State, out.blocked)
@@ -300,7 +330,7 @@ var sweepDeadlockName, sweepDeadlockMode = func() (string, string) {
 }()
 
 var sweepDeadlock = pbt.RegisterSweep(pbt.Sweep{Prop: "C10", Name: sweepDeadlockName,
-	Rule: sweepDeadlockMode + "exhaustive over (type, exported method, state) for the 17 hash map/set types, the linked list and the two request queues (reflection over the method sets; states empty / 3 elements / 200 elements / bounded and full / 3 elements with the structure itself passed wherever a structure of its own type is expected / 3 elements and a key whose Hash and Equals panic / 3 elements with the bound set to -1 (unbounded) / 200 elements with negative keys and then the bound set to 200, so that the call evicts an entry that went through two table growths / 3 elements and caller-supplied functions - Sort comparators, the queues' Failed and Overflowed callbacks with the queue at its bound - that panic): the method is invoked with generated arguments in its own goroutine on an instance nobody else touches, followed by a locking probe (Clear); a call found parked on a sync primitive inside golib in three consecutive goroutine-stack samples is a self-deadlock (no wall-clock verdict; a blocking dequeue on an empty queue is not issued); every (type, method, state) is a distinct non-trivial case",
+	Rule: sweepDeadlockMode + "exhaustive over (type, exported method, state) for the 17 hash map/set types, the linked list and the two request queues (reflection over the method sets; states empty / 3 elements / 200 elements / bounded and full / 3 elements with the structure itself passed wherever a structure of its own type is expected / 3 elements and a key whose Hash and Equals panic / 3 elements with the bound set to -1 (unbounded) / 3 elements at the bound with Failed and Overflowed callbacks that read Size() and GetCapacity() / 200 elements with negative keys and then the bound set to 200, so that the call evicts an entry that went through two table growths / 3 elements and caller-supplied functions - Sort comparators, the queues' Failed and Overflowed callbacks with the queue at its bound - that panic): the method is invoked with generated arguments in its own goroutine on an instance nobody else touches, followed by a locking probe (Clear); a call found parked on a sync primitive inside golib in three consecutive goroutine-stack samples is a self-deadlock (no wall-clock verdict; a blocking dequeue on an empty queue is not issued); every (type, method, state) is a distinct non-trivial case",
 	N:    uint64(len(sweepItems)), Run: runSweepItem,
 	Show: func(i uint64) interface{} { return sweepItems[i] }})
 
